@@ -965,7 +965,12 @@ impl CaseEngine for C18S {
             let mut q = sq(SearchQueryAlgorithm::Elements, 0, 0);
             let with_conds = k > 0 && rng.chance(1, 2);
             if with_conds {
-                q.conditions = g.conditions(&m, 2, false, false);
+                // beyond / not_beyond are allowed: they "only control traversal", so in a linear scan they
+                // must not change the selection; distance is not generated (no documented meaning here)
+                q.conditions = g.conditions(&m, 2, true, false);
+                if search_ref::uses_control(&q.conditions) {
+                    rep.count("elements_searches_with_traversal_modifiers");
+                }
             }
             let n = m.elems.len() as u64;
             if k > 1 && rng.chance(1, 2) {
@@ -979,7 +984,7 @@ impl CaseEngine for C18S {
             let v = match run_search(&db, &q) {
                 Ok(Ok(got)) => match search_ref::search(&m, &q, Reading::default()) {
                     Ok(want) => {
-                        if got == want {
+                        if got == want || matches_any_reading(&m, &q, &got) {
                             None
                         } else {
                             let mut a = got.clone();
@@ -1019,5 +1024,6 @@ impl CaseEngine for C18S {
     }
     fn finish(&self, _args: &Args, rep: &mut Report) {
         rep.require("databases_with_removed_slots", 50);
+        rep.require("elements_searches_with_traversal_modifiers", 50);
     }
 }
